@@ -53,3 +53,8 @@ chk("C01", "model_checking",
     "The maporder overlay turns every range over a map and every golang-set iteration in the state-transition packages (85 sites) into an explicit choice point. For every transition the block is re-applied on fresh replicas under every order strategy at every site that fired (n<=4: all n! orders; else reverse/rotations/transpositions; thorough: pairs of sites), in 6 host time zones, at 2 later wall clocks, and on replicas with different histories (never restarted, protocol/full.go-style long-lived check state, reorged from an empty/proposed sibling, speculative fork validation while holding the sibling, proposer-warmed caches); results must be byte-identical (roots, global parameters, identity diff, receipts, database image). GetNextValidationTime is enumerated separately over sizes x times x flags x zones.",
     "memoryIpfs CIDs; lottery goroutine pinned to inline; orders needing >=3 simultaneously deviating sites outside the bound; epoch results with participants come from C17's driver.",
     "DESIGN.md 5/C01", "chainmc+maporder")
+chk("C17", "model_checking",
+    "bounded-exhaustive enumeration of the status decision table; explicit-state BFS over whole ceremonies with cross-evaluation by differently-historied replicas",
+    "(a) 8.06M tuples of determineNewIdentityState (all prior states x flags x float32 neighbours of every threshold): rule invariants of the statement and functionality. (b) BFS over complete validations on a 5-participant network: every split of hash / short / long / evidence transactions (subsets, intra-block orders, hostile evidence maps, reveal not matching the commitment) over the session blocks; every block is built by a node restarted before that block (restoreState path), validated by a fresh replica (first evaluation), by a never-restarted node that followed the whole ceremony, and by a node that re-evaluates the height from its cache after proposing; rule invariants on every applied epoch result; one epoch result per set of on-chain ceremony transactions regardless of arrival blocks.",
+    "'Missed' is taken as the protocol can observe it (short+long answers on chain and evidence majority); a failed validation (nobody validated) keeps all statuses by protocol design and is outside the rule invariants; map-order deviations on the epoch block are enumerated by C01 on the same driver.",
+    "DESIGN.md 5/C17", "enum+chainmc")
